@@ -547,6 +547,23 @@ pub fn validate<S: Src + ?Sized>(s: &S, p: &Parsed, o: &ValidateOpts) -> Vec<Str
             }
             None => bad.push(format!("entry {i}: extent overflow")),
         }
+        // rule 8 for huge stored entries: stream the extent instead of materialising it
+        if !(o.skip_decode)(i) && c.csize > o.decode_limit && c.method == 0 && c.flags & 1 == 0 && end.map(|e| e <= s.total()).unwrap_or(false) {
+            if c.usize != c.csize {
+                bad.push(format!("entry {i}: stored entry with sizes {} / {}", c.csize, c.usize));
+            }
+            let mut crc = Crc::new();
+            let mut off = 0u64;
+            while off < c.csize {
+                let n = (c.csize - off).min(1 << 20) as usize;
+                let b = s.fetch(l.data_start + off, n);
+                crc.update(&b);
+                off += n as u64;
+            }
+            if crc.finish() != c.crc {
+                bad.push(format!("entry {i}: CRC of the stored data {:#x} != recorded {:#x}", crc.finish(), c.crc));
+            }
+        }
         // rule 8
         if !(o.skip_decode)(i) && c.csize <= o.decode_limit && end.map(|e| e <= s.total()).unwrap_or(false) {
             let mut data = s.fetch(l.data_start, c.csize as usize);
